@@ -10,6 +10,12 @@ PROPERTY = 'C10'
 MARGIN = 2      # documented tick margin (ProcessCommand.DEFAULT_TICK_TIMEOUT) for clusters of less than 30 instances
 
 
+class _Publisher:
+    """stands for the external event publisher (sockets): accepts everything"""
+    def __getattr__(self, name):
+        return lambda *a, **k: None
+
+
 def _forced(core, ns):
     out = []
     for name, a in core.rpc_handler.out:
@@ -24,6 +30,8 @@ def job(src, kind='start', k=5, target_index=1):
     independent monitor computes the tick deadline"""
     from supvisors.ttypes import StartingStrategies
     core = FC.operational(2)
+    if src.pick_flag('event_link'):
+        core.external_publisher = _Publisher()          # event_link = ZMQ / WS: every event is also published outside
     ids = core.ids
     target = ids[target_index]
     tstatus = core.context.instances[target]
